@@ -53,6 +53,7 @@ def run(chk: Check, drv: Driver):
                 chk.count("compute_kernels_certified_noalloc" if c == "true" else "compute_kernels_not_noalloc")
                 if c != "true":
                     chk.violation("compute kernel contains an allocation (certificate noAlloc fails)", pr.case(capacity=cap, kernel="compute"))
+            kruns.store_certificates(chk, drv, prepared, kinds=("compute",))
             items = []
             for pr in prepared:
                 for _ in range(2 if quick else 4):
